@@ -116,6 +116,53 @@ def seekEnd : D Unit := fun s => .ok () { s with rest := [] }
 /-- `c.checkBounds(n)` = `c.rpos+n > len(c.buf)` -/
 def checkBounds (n : Nat) : D Bool := fun s => .ok (decide (n > s.rest.length)) s
 
+/-! ### compiled forms of the length tests (the driver must not walk the whole buffer per read)
+
+`s.rest.length` is linear in what is left of the buffer; a decoder that reads n fields would cost n²
+in the compiled driver. The comparisons `k > rest.length` are replaced, for COMPILATION only, by a walk
+of at most `k` cells (`lenLt`), through proved equalities tagged `@[csimp]`; the theorems keep speaking
+about the definitions above. -/
+
+/-- `l.length < n`, looking at no more than `n` cells -/
+def lenLt {α : Type} : List α → Nat → Bool
+  | _, 0 => false
+  | [], _ + 1 => true
+  | _ :: t, n + 1 => lenLt t n
+
+theorem lenLt_eq {α : Type} (l : List α) (n : Nat) : lenLt l n = decide (n > l.length) := by
+  induction l generalizing n with
+  | nil => cases n <;> simp [lenLt]
+  | cons a t ih =>
+    cases n with
+    | zero => simp [lenLt]
+    | succ n => simp only [lenLt, ih, List.length_cons]; congr 1; simp
+
+def checkBoundsFast (n : Nat) : D Bool := fun s => .ok (lenLt s.rest n) s
+
+@[csimp] theorem checkBounds_eq_fast : @checkBounds = @checkBoundsFast := by
+  funext n s; simp [checkBounds, checkBoundsFast, lenLt_eq]
+
+def advancePFast (n : Nat) (site : String) : D Unit := fun s =>
+  if lenLt s.rest n then .panic ("cursor beyond the buffer: " ++ site)
+  else .ok () { s with rest := s.rest.drop n }
+
+@[csimp] theorem advanceP_eq_fast : @advanceP = @advancePFast := by
+  funext n site s; simp [advanceP, advancePFast, lenLt_eq]
+
+def slicePFast (lo hi : Nat) (site : String) : D Bytes := fun s =>
+  if lenLt s.rest hi ∨ lo > hi then .panic ("slice bounds out of range: " ++ site)
+  else .ok ((s.rest.drop lo).take (hi - lo)) s
+
+@[csimp] theorem sliceP_eq_fast : @sliceP = @slicePFast := by
+  funext lo hi site s; simp [sliceP, slicePFast, lenLt_eq]
+
+def sliceFromPFast (lo : Nat) (site : String) : D Bytes := fun s =>
+  if lenLt s.rest lo then .panic ("slice bounds out of range: " ++ site)
+  else .ok (s.rest.drop lo) s
+
+@[csimp] theorem sliceFromP_eq_fast : @sliceFromP = @sliceFromPFast := by
+  funext lo site s; simp [sliceFromP, sliceFromPFast, lenLt_eq]
+
 /-! ### raw primitives of chunk_reader.go (no trace) -/
 
 /-- `Uint8()`: `if c.checkBounds(1) { return 0, io.EOF }; v := c.buf[c.rpos]; c.rpos++` -/
